@@ -1,0 +1,40 @@
+//go:build verif
+
+package aws
+
+// Hooks for the verification harness in /verif (build tag `verif`).
+// Add-only: nothing here is compiled without the tag and no existing line is changed.
+
+import (
+	"github.com/atlassian/escalator/pkg/cloudprovider"
+	"github.com/aws/aws-sdk-go/service/autoscaling/autoscalingiface"
+	"github.com/aws/aws-sdk-go/service/ec2/ec2iface"
+)
+
+// VerifNewCloudProvider builds the AWS cloud provider over injected service clients (what Builder.Build does after
+// creating the session) and registers the node groups.
+func VerifNewCloudProvider(service autoscalingiface.AutoScalingAPI, ec2Service ec2iface.EC2API, configs ...cloudprovider.NodeGroupConfig) (*CloudProvider, error) {
+	cloud := &CloudProvider{
+		service:    service,
+		ec2Service: ec2Service,
+		nodeGroups: make(map[string]*NodeGroup, len(configs)),
+	}
+	if err := cloud.RegisterNodeGroups(configs...); err != nil {
+		return nil, err
+	}
+	return cloud, nil
+}
+
+// VerifConstants exposes the unexported batching constants.
+func VerifConstants() (attachBatch, terminateBatch, maxTerminateTries int) {
+	return batchSize, terminateBatchSize, maxTerminateInstancesTries
+}
+
+// VerifTerminateTries reads the consecutive clean-up counter of a node group.
+func (n *NodeGroup) VerifTerminateTries() int { return n.terminateInstancesTries }
+
+// VerifSetTerminateTries sets the consecutive clean-up counter of a node group.
+func (n *NodeGroup) VerifSetTerminateTries(v int) { n.terminateInstancesTries = v }
+
+// VerifProviderIDToInstanceID wraps providerIDToInstanceID.
+func VerifProviderIDToInstanceID(providerID string) string { return providerIDToInstanceID(providerID) }
